@@ -23,11 +23,11 @@ RULE = ('cases = (metric, y, y_hat) over the full product of the value alphabet,
         'non-zero expected value (the formula, not just the zero case, is exercised)')
 ASSUMPTIONS = ['y, y_hat >= 0 (logarithms / ratios)', 'relative tolerance 1e-12 (1e-9 for R2 near cancellation, absolute 1e-12 x (1 + rss/tss))',
                'alphabet only: this establishes the formulas on the alphabet, not on all reals (stated limit in DESIGN.md)']
-BOUNDS = {'quick': {'vector pairs': 'length 1..4 over {0,1/2,1,2,3} (5^8 at length 4)', 'scale family': 'length<=3, 7 rescalings', 'wrapper curves': 'A,P n<=4', 'wrapper vectors (x not increasing)': 'all (x,y) of length 1..4 over x in {0,1,2}, y in {0,1,3}', 'large offsets (x+2^31, y+2^32, ...)': 'best-fit R2 on A12 n=4, G12Y013 n=5'},
-          'thorough': {'vector pairs': 'length 1..5 over {0,1/2,1,2,3} (5^10)', 'scale family': 'length<=4', 'wrapper curves': 'A,P n<=5'}}
-TECHNIQUE = 'exhaustive enumeration of small vector alphabets on the real (numba-jitted) kernels against textbook formulas (fsum / Fraction)'
+BOUNDS = {'quick': {'vector pairs': 'length 1..4 over {0,1/2,1,2,3} (5^8 at length 4)', 'scale family': 'length<=3, 7 rescalings', 'wrapper curves': 'A,P n<=4', 'wrapper vectors (x not increasing)': 'all (x,y) of length 1..4 over x in {0,1,2}, y in {0,1,3}', 'large offsets (x+2^31, y+2^32, ...)': 'best-fit R2 on A12 n=4, G12Y013 n=5', 'function-major call histories': 'every wrapper x 12 lines x every y in {0,1,3}^m on all x in {0,1,2}^m back to back, m=2,3'},
+          'thorough': {'vector pairs': 'length 1..5 over {0,1/2,1,2,3} (5^10)', 'scale family': 'length<=4', 'wrapper curves': 'A,P n<=5', 'function-major call histories': 'm=2,3,4'}}
+TECHNIQUE = 'exhaustive enumeration of small vector alphabets on the real (numba-jitted) kernels against textbook formulas (fsum / Fraction), in x-major and function-major call orders'
 LEVEL_TEXT = ('Model checking by complete enumeration of the vector alphabet: every (y, y_hat) pair up to length 4 (5 thorough) for each metric and R2 variant, '
-              'rescaled over 2^-60..2^500, plus every wrapper on every small curve; decisive against formula mutations (wrong exponent, missing abs, wrong denominator, mean vs sum).')
+              'rescaled over 2^-60..2^500, plus every wrapper on every small curve and, as operation sequences, every wrapper on all x vectors back to back (state carried between calls); decisive against formula mutations (wrong exponent, missing abs, wrong denominator, mean vs sum).')
 LEVEL_NOTE = 'Alphabet only; numeric behaviour outside it is probed by the scale family only.'
 
 VALS = (0.0, 0.5, 1.0, 2.0, 3.0)
